@@ -183,7 +183,7 @@ func autoInlinable(f *ssa.Function) bool {
 func (fr *Frame) unknownCall(in ssa.Instruction, name string, args []*Val, resT types.Type) *Val {
 	vc := fr.vc
 	vc.drop("havoc-call:" + shortType(name))
-	pure := knownPure[name] || strings.HasPrefix(name, "fmt.") || strings.HasPrefix(name, "errors.") || strings.HasPrefix(name, "log/slog.") || strings.HasPrefix(name, "(*log/slog.") || strings.Contains(name, "log/slog.(*Logger)")
+	pure := knownPure[name] || strings.HasPrefix(name, "fmt.") || strings.HasPrefix(name, "errors.") || strings.HasPrefix(name, "log/slog.") || strings.HasPrefix(name, "(*log/slog.") || strings.Contains(name, "log/slog.(*Logger)") || strings.Contains(name, "/internal/logging.") || strings.Contains(name, "/internal/recovery.")
 	if !pure {
 		pre := fr.cur
 		fr.cur = fr.cur.Havoc(nil, "c")
@@ -311,7 +311,7 @@ func (fr *Frame) callWrites(x ssa.CallInstruction) ([]string, bool) {
 		}
 		return out, all
 	}
-	if knownPure[name] || strings.HasPrefix(name, "fmt.") || strings.HasPrefix(name, "errors.") || strings.Contains(name, "log/slog") {
+	if knownPure[name] || strings.HasPrefix(name, "fmt.") || strings.HasPrefix(name, "errors.") || strings.Contains(name, "log/slog") || strings.Contains(name, "/internal/logging.") || strings.Contains(name, "/internal/recovery.") {
 		return nil, false
 	}
 	return nil, true
